@@ -438,7 +438,8 @@ def make_app(mode, responses, fallback, model="gpt-3.5-turbo-instruct", fresh=Fa
 ALL_LOG_OPTIONS = {"log": {"activated_rails": True, "llm_calls": True, "internal_events": True, "colang_history": True}, "output_vars": True, "llm_output": True}
 # "nocache": the implicit events-history cache is empty at every call - a second LLMRails instance / a restarted server gets the
 # same message history and has to rebuild the events from the messages (incl. the earlier, LLM-written, assistant messages)
-APIS_V1 = ["messages", "options", "prompt", "state", "stream", "verbose", "nocache"]
+# "retctx": the deprecated `return_context=True` (returns a pair message, context)
+APIS_V1 = ["messages", "options", "prompt", "state", "stream", "verbose", "nocache", "retctx"]
 APIS_V2 = ["state", "verbose"]
 
 
@@ -465,6 +466,14 @@ def _call(app, mode, api, msg, hist, state):
         res = app.generate(messages=hist, options=dict(ALL_LOG_OPTIONS))
         str(res.output_data), str(res.log)  # assembled from the same events: they must be there and printable
         return _one_response(res), state
+    if api == "retctx":
+        hist.append({"role": "user", "content": msg})
+        with warnings.catch_warnings():
+            warnings.simplefilter("ignore")
+            r = app.generate(messages=hist, return_context=True)
+        if isinstance(r, tuple) and len(r) == 2 and isinstance(r[1], dict):
+            return r[0], state
+        return {"malformed-response": repr(r)[:200]}, state
     if api == "prompt":
         r = app.generate(prompt=msg)
         return ({"role": "assistant", "content": r} if isinstance(r, str) else {"malformed-response": repr(r)[:200]}), state
